@@ -54,6 +54,24 @@ PAIRS = {
     'Ipv6ExtensionsSlice::from_slice': ['h_pairs::p_ext_walk_strict'],
     'Ipv6ExtensionsSlice::from_slice_lax': ['h_pairs::p_ext_walk_lax'],
     '<Iterator for Ipv6ExtensionSliceIter>::next': ['h_pairs::p_ext_walk_lax'],
+    # checksums: protocol-level harnesses with the RFC oracle (small payloads) + the 64 KiB boundary harnesses
+    'UdpHeader::calc_checksum_post_ip': ['h_builder::c09_k_proto_udp_ipv4', 'h_builder::c09_k_proto_udp_ipv6'],
+    'UdpHeader::calc_checksum_ipv4_internal': ['h_builder::c09_k_proto_udp_ipv4'],
+    'UdpHeader::calc_checksum_ipv6_internal': ['h_builder::c09_k_proto_udp_ipv6'],
+    'UdpHeader::calc_checksum_ipv4_raw': ['h_builder::c09_k_proto_udp_ipv4'],
+    'UdpHeader::calc_checksum_ipv6_raw': ['h_builder::c09_k_proto_udp_ipv6'],
+    'UdpHeader::with_ipv4_checksum': ['h_builder::c09_k_proto_udp_ipv4'],
+    'UdpHeader::with_ipv6_checksum': ['h_builder::c09_k_proto_udp_ipv6'],
+    'TcpHeader::calc_checksum_post_ip': ['h_builder::c09_k_proto_tcp_ipv4', 'h_builder::c09_k_proto_tcp_ipv6'],
+    'TcpHeader::calc_checksum_ipv4_raw': ['h_builder::c09_k_proto_tcp_ipv4'],
+    'TcpHeader::calc_checksum_ipv4': ['h_builder::c09_k_proto_tcp_ipv4'],
+    'TcpHeader::calc_checksum_ipv6_raw': ['h_builder::c09_k_proto_tcp_ipv6', 'h_big::c09_k_big_tcp_header_ipv6'],
+    'TcpHeader::calc_checksum_ipv6': ['h_builder::c09_k_proto_tcp_ipv6', 'h_big::c09_k_big_tcp_header_ipv6'],
+    'TcpHeaderSlice::calc_checksum_post_ip': ['h_big::c09_k_big_tcp_header_slice_ipv6'],
+    'TcpHeaderSlice::calc_checksum_ipv6_raw': ['h_big::c09_k_big_tcp_header_slice_ipv6'],
+    'TcpHeaderSlice::calc_checksum_ipv6': ['h_big::c09_k_big_tcp_header_slice_ipv6'],
+    'TcpSlice::calc_checksum_post_ip': ['h_big::c09_k_big_tcp_slice_ipv6'],
+    'TcpSlice::calc_checksum_ipv6': ['h_big::c09_k_big_tcp_slice_ipv6'],
 }
 
 # ---- C17: typed control-message views (agent k-ctrl; reference tables written from the RFCs inside h_ctrl.rs) ------------------
@@ -284,3 +302,9 @@ harness('h_builder::c09_k_proto_icmpv6_validator', ['C09'], 'bounded (message 8.
 harness('h_builder::c09_k_proto_igmp', ['C09'], 'bounded (payload <= 5 B; helpers stubbed)', 'IgmpHeader::calc_checksum/with_checksum == ref, all 7 variants', tier='quick', bound='payload <= 5 B', timeout=500)
 harness('h_builder::c10_size_arp', ['C10'], 'bounded (address lengths 0..=8)', 'size() of ethernet2|+VLAN(s)|linux_sll + ARP == 14/16 + 4*vlans + 8+2h+2p', tier='quick', bound='addr len <= 8', timeout=600)
 harness('h_builder::c10_limits_eth_ipv4_udp', ['C10', 'C14'], 'complete for n in limit+1..=limit+2 (error side only)', 'eth+ipv4+udp payload above 65535-20-8: Err(PayloadLen) with real limit, nothing above L2 emitted, size() exact', tier='thorough', bound='error side only', timeout=1800)
+
+# ---- C09 at the 64 KiB boundary (paired harnesses for the unbounded Verus proofs; oracle h_builder::ref_*) ---------------------
+harness('h_big::c09_k_big_tcp_slice_ipv6', ['C09'], 'bounded (one length: 65556 B segment, zero body; symbolic addresses + header; add_slice stubbed by zero-tail ideal accumulator)', 'TcpSlice::calc_checksum_ipv6 == RFC 9293/8200 checksum with the 32 bit length in the pseudo header', tier='thorough', bound='1 length (65556 B)', timeout=900)
+harness('h_big::c09_k_big_tcp_header_slice_ipv6', ['C09'], 'bounded (one length: 20 B header + 65536 B zero payload)', 'TcpHeaderSlice::calc_checksum_ipv6_raw, same', tier='thorough', bound='1 length', timeout=600)
+harness('h_big::c09_k_big_tcp_header_ipv6', ['C09'], 'bounded (one length: header without options + 65536 B zero payload; syn/ece/cwr symbolic)', 'TcpHeader::calc_checksum_ipv6_raw, same', tier='thorough', bound='1 length', timeout=600)
+harness('h_big::c09_k_big_icmpv6', ['C09'], 'bounded (one length: echo request + 65536 B zero payload)', 'Icmpv6Type::calc_checksum with the 32 bit length in the pseudo header', tier='thorough', bound='1 length', timeout=600)
